@@ -504,6 +504,26 @@ func curveSections(r *vlib.Run) {
 				}
 			}
 		}
+		// repeated vertices (zero-length segments): paths joined end to start, a closing vertex
+		// written twice, a corner exported twice
+		repeated := 0
+		if rng.Intn(4) == 0 {
+			var q [][2]float64
+			for i, p := range pts {
+				q = append(q, p)
+				if rng.Intn(3) == 0 || (repeated == 0 && i == len(pts)-1) {
+					q = append(q, p)
+					repeated++
+					if rng.Intn(4) == 0 {
+						q = append(q, p)
+						repeated++
+					}
+				}
+			}
+			pts = q
+			m = len(pts) - 1
+			c.Count("segment_curve.polylines_with_repeated_vertices", 1)
+		}
 		segs := make([]*model2d.Segment, m)
 		cum := make([]float64, m+1)
 		for i := 0; i < m; i++ {
@@ -513,15 +533,21 @@ func curveSections(r *vlib.Run) {
 		total := cum[m]
 		refAt := func(t float64) [2]float64 {
 			l := t * total
-			i := 0
-			for i < m-1 && l > cum[i+1] {
-				i++
+			// the first segment of positive length that reaches l
+			i := -1
+			for k := 0; k < m; k++ {
+				if cum[k+1] > cum[k] {
+					i = k
+					if l <= cum[k+1] {
+						break
+					}
+				}
 			}
 			f := (l - cum[i]) / (cum[i+1] - cum[i])
 			return [2]float64{pts[i][0] + (pts[i+1][0]-pts[i][0])*f, pts[i][1] + (pts[i+1][1]-pts[i][1])*f}
 		}
 		curves := map[string]*model2d.SegmentCurve{"model2d.NewSegmentCurve": model2d.NewSegmentCurve(segs)}
-		if m >= 1 {
+		if m >= 1 && repeated == 0 {
 			mesh := model2d.NewMesh()
 			for _, i := range rng.Perm(m) {
 				mesh.Add(segs[i])
